@@ -34,6 +34,17 @@ def use_repo_source() -> None:
         raise RuntimeError(f"odfdo imported from {got}, expected under {SRC}")
 
 
+def shape_ok(v, depth: int) -> bool:
+    """TLC raises (instead of answering FALSE) when it compares values of
+    different kinds, e.g. an integer with a sequence.  Recorded answers are
+    therefore checked for their expected nesting depth of integers BEFORE
+    they are handed to TLC; an answer of the wrong shape is itself reported
+    as a violation by the caller."""
+    if depth == 0:
+        return isinstance(v, int) and not isinstance(v, bool)
+    return isinstance(v, list) and all(shape_ok(x, depth - 1) for x in v)
+
+
 def seed() -> int:
     try:
         return int(os.environ.get("VERIF_SEED", "0"))
